@@ -87,6 +87,12 @@ def enumerate_cases(tier):
             for p in PROCS:
                 out.append({'proc': p, 'names': names, 'sel': sel})
             out.append({'proc': 'load_tuple', 'names': names, 'sel': sel, 'seq_iters': True})
+    for names in FIXED_PACKAGES[1:]:
+        for sel in selector_forms(names):
+            for p in REGEX_PROCS:
+                out.append({'proc': p, 'names': names, 'sel': sel, 'regex': False})
+            for p in ('delete_resource', 'concatenate', 'filter_rows', 'deduplicate'):
+                out.append({'proc': p, 'names': names, 'sel': sel, 'seq_iters': True})
     for names in FIXED_PACKAGES[1:4]:
         for sel in selector_forms(names):
             for pre in PRELUDES:
@@ -104,6 +110,8 @@ def drawn_case(draw):
     if draw(st.integers(0, 2)) == 0:
         c['proc'] = draw(st.sampled_from(PRELUDE_PROCS))
         c['prelude'] = draw(st.sampled_from(PRELUDES))
+    elif c['proc'] in REGEX_PROCS and draw(st.booleans()):
+        c['regex'] = False
     return c
 
 
@@ -139,9 +147,24 @@ def build_prelude(kind):
     return []
 
 
-def build_step(proc, sel, capture=None, prelude=None):
+REGEX_PROCS = ['set_type', 'select_fields', 'delete_fields', 'rename_fields', 'unpivot']
+
+
+def build_step(proc, sel, capture=None, prelude=None, regex=True):
     sel = copy.deepcopy(sel)
     d = dataflows
+    if not regex and not prelude and proc in REGEX_PROCS:
+        # regex=False concerns the FIELD names only: the resources selector keeps its meaning
+        if proc == 'set_type':
+            return d.set_type('n', resources=sel, type='number', regex=False)
+        if proc == 'select_fields':
+            return d.select_fields(['v', 'id'], resources=sel, regex=False)
+        if proc == 'delete_fields':
+            return d.delete_fields(['n'], resources=sel, regex=False)
+        if proc == 'rename_fields':
+            return d.rename_fields({'v': 'w'}, resources=sel, regex=False)
+        return d.unpivot([{'name': 'n', 'keys': {'k': 'N'}}, {'name': 'm', 'keys': {'k': 'M'}}],
+                         [{'name': 'k', 'type': 'string'}], {'name': 'val', 'type': 'integer'}, regex=False, resources=sel)
     if prelude:
         numf, strf = ('p0', 's0') if prelude == 'add_field' else ('val', 'k')
         if proc == 'set_type':
@@ -226,7 +249,7 @@ def _par_func(row):
 
 def run(steps, pkg, seq=False, scheduled=False):
     if not scheduled:
-        return run_steps(steps, gen.descriptor_of(pkg), gen.tables_of(pkg))
+        return run_steps(steps, gen.descriptor_of(pkg), gen.tables_of(pkg), sequential=seq)
     # parallelize runs under the harness-owned scheduler of C18 (one worker, round-robin schedule)
     from vlib import sched as vsched
     s = vsched.Scheduler([])
@@ -294,14 +317,22 @@ def check(case, ctx):
         pre = case.get('prelude')
         if pre:
             classes.append('prelude:' + pre)
-        out_desc, out = run(build_prelude(pre) + [build_step(proc, sel, capture, pre)], pkg, scheduled=sched_)
+        # (seq: all resources are read from ONE underlying stream, as after a checkpoint / unstream)
+        seq_ = bool(case.get('seq_iters')) and not sched_
+        if seq_:
+            classes.append('sequential-source')
+        if case.get('regex') is False:
+            classes.append('regex=False')
+        out_desc, out = run(build_prelude(pre) + [build_step(proc, sel, capture, pre, case.get('regex', True))], pkg,
+                            seq=seq_, scheduled=sched_)
         if pre:
             # reference for "passes through unchanged": the same pipeline without the step under test
             ref_desc, ref_rows = run(build_prelude(pre), pkg)
         else:
             ref_desc, ref_rows = passthrough_desc(gen.descriptor_of(pkg)), [r['rows'] for r in pkg]
         if sub:
-            sub_desc, sub_out = run(build_prelude(pre) + [build_step(proc, None, [], pre)], sub, scheduled=sched_)
+            sub_desc, sub_out = run(build_prelude(pre) + [build_step(proc, None, [], pre, case.get('regex', True))], sub,
+                                    scheduled=sched_)
         else:
             sub_desc, sub_out = {'resources': []}, []
     except Violation:
@@ -350,4 +381,4 @@ def check(case, ctx):
                 raise Violation('%s:selected-resource-untouched' % proc, {'resource': names[i], 'selector': sel})
     if proc == 'printer' and capture != [names[i] for i in idxs]:
         raise Violation('printer:printed-resources', {'got': capture, 'expected': [names[i] for i in idxs]})
-    return Info(nontrivial=nontrivial, classes=classes, key=json.dumps([proc, sel, names, case.get('prelude')]))
+    return Info(nontrivial=nontrivial, classes=classes, key=json.dumps([proc, sel, names, case.get('prelude'), case.get('regex'), bool(case.get('seq_iters'))]))
